@@ -34,10 +34,9 @@ package main
 //	               the identical calls that joined it), with that result; cancel / own time-out -> that call;
 //	               nobody else                                                (stuck, spurious-return, wrong-result)
 //	reach the store  a submission makes at most one new request arrive at the store, and that request is the
-//	               submitted one; if none arrives the call must be a region-level ResolveLock (no Keys, no
-//	               TxnInfos) AND a request with identical content must be pending at the store (it shares that
-//	               flight: "identical requests may share a flight"); otherwise the request was merged with a
-//	               different one or dropped                                          (request-never-reached-store)
+//	               submitted one; if none arrives a request with identical content must be pending at the store (the
+//	               call shares that flight: "identical requests may share a flight"); otherwise the request was
+//	               merged with a different one or dropped                            (request-never-reached-store)
 //
 // Sharing is never demanded (a layer that forwards everything satisfies the oracle); only wrong sharing is
 // judged. Requests that differ ONLY in the commit version are outside the judged domain (a transaction has one
@@ -799,30 +798,27 @@ func (w *cworld) check(before, after *cobs, e string, ex expect) []viol {
 		if len(identical) > 0 && c.shape.collapsible() {
 			w.flags["identical_request_sent_again_instead_of_sharing"] = true
 		}
-	case c.shape.collapsible() && len(identical) > 0:
-		c.flight = identical[len(identical)-1] // shares the (newest) identical flight
+	case len(identical) > 0:
+		// shares the (newest) identical flight. Allowed for every kind of request: the response to an identical request
+		// is the response to its own (the unchanged layer never merges lite / batch / other commands, but the property
+		// does not forbid it).
+		c.flight = identical[len(identical)-1]
 		w.flags["call_joined_an_identical_flight"] = true
+		if !c.shape.collapsible() {
+			w.notes = append(w.notes, viol{Key: "identical_requests_of_a_never_merged_kind_share_a_flight/" + tag + "/" + c.shape.kind(), What: fmt.Sprintf("caller %d's request {%s} was not sent: it shares the flight of an identical pending request", i, own)})
+		}
 	case c.shape.collapsible() && len(modCommit) > 0:
 		c.unjudged = true
 		w.notes = append(w.notes, viol{Key: "requests_differing_only_in_commit_version_share_a_flight/" + tag, What: fmt.Sprintf(
 			"caller %d's request {%s} was not sent: it shares the flight of {%s}, which differs only in the commit version (outside the judged domain: a transaction has one fate)", i, own, before.Reqs[modCommit[0]].Content)})
 	default:
 		shape := "/while-nothing-else-is-in-flight"
-		if len(others)+len(identical) > 0 {
+		if len(others) > 0 {
 			shape = "/while-a-different-request-is-in-flight"
-			if len(identical) > 0 { // a never-collapsed kind whose twin is pending
-				shape = "/while-an-identical-request-of-a-never-merged-kind-is-in-flight"
-			}
 		}
 		add("request-never-reached-store/"+tag+"/"+c.shape.kind()+shape, fmt.Sprintf(
 			"caller %d submitted {%s} (event %s): no request arrived at the store and no identical request is pending there (pending: %s) - it was merged with a different request or dropped",
-			i, own, e, strings.Join(append(others, func() []string {
-				var s []string
-				for _, n := range identical {
-					s = append(s, "{"+before.Reqs[n].Content+"}")
-				}
-				return s
-			}()...), ", ")))
+			i, own, e, strings.Join(others, ", ")))
 		c.tainted = true
 	}
 	return vs
